@@ -129,7 +129,7 @@ func c15(e *Env) {
 	r.Rule("every type × images (even cases: valid images of canonical values; odd cases: token-level wire images incl. all-pad text and zero counts; every 5th: images with 1..4 mutated bytes, accepted or not) × 7 dirty receivers: an object populated with longer lists / another union member / non-nil nested parts, an object that already decoded a different image, an object left behind by a failed decode of a truncated image, an object whose list entries and nested parts all alias ONE shared sub-object, a near miss of the expected result (every fixed text padded on its pad side, prefixed texts one byte longer, lists one entry longer), an object that decoded one image and then failed half way through another, and a hand-built object whose discriminator and body/extension type disagree; in the aliased receiver all numeric lists are windows onto one shared backing array. distinct_nontrivial = distinct (image hash, dirty kind) where the dirty receiver really differed from the fresh result before the decode")
 	r.Explain("Oracle: Decode(image) into a fresh object and into each dirty receiver agree on accept/reject, and on accept the two messages are ≡ (strict: list lengths, union member type, nested parts); additionally the same number of bytes is consumed.")
 	types := e.Types()
-	n := e.N(200, 8000)
+	n := e.N(200, 40000)
 	acc := newFeatAcc()
 	e.Par(len(types), func(i int) {
 		t := types[i]
